@@ -525,4 +525,11 @@ def refsKnownAll (offs : Nat → Option Nat) : List Operation → Bool
   | op :: rest => refsKnown offs op && refsKnownAll offs rest
 end
 
+/-- the `.debug_info` reference an operation carries (resolved by a fix-up), with its field size -/
+def sectionRef (enc : Encoding) : Operation → Option (DRef × Nat)
+  | .callRef r => some (r, enc.format.wordSize)
+  | .variableValue r => some (r, enc.format.wordSize)
+  | .implicitPointer r _ => some (r, implicitPointerRefSize enc)
+  | _ => none
+
 end Gimli.WOp
